@@ -50,6 +50,12 @@ fn lint_by_ref_arg(
             match &arg_pos.element {
                 Expression::ArrayElement(name, args, expression_type) => {
                     if args.is_empty() {
+                        // a single fixed-length string may be passed for a `$` parameter (it is
+                        // copied back with its length restored), but an array of fixed-length
+                        // strings is not an array of strings
+                        if matches!(expression_type, ExpressionType::FixedLengthString(_)) {
+                            return Err(LintError::ArgumentTypeMismatch.at(arg_pos));
+                        }
                         let dummy_expr =
                             Expression::Variable(name.clone(), expression_type.clone()).at(arg_pos);
                         lint_by_ref_arg(&dummy_expr, boxed_element_type.as_ref())
